@@ -829,9 +829,9 @@ class Images(productmd.common.MetadataBase):
         return sorted(self.images.keys())
 
     def serialize(self, parser):
+        self.validate()
         if not self.images:
             return
-        self.validate()
         for platform in self.images:
             section = "images-%s" % platform
             parser.add_section(section)
@@ -852,6 +852,7 @@ class Images(productmd.common.MetadataBase):
         self.validate()
 
     def _validate_image_paths(self):
+        self._assert_type("images", [dict])
         for platform in self.images:
             if not isinstance(self.images[platform], dict):
                 raise TypeError("Images of platform '%s' must be a dict: %r" % (platform, self.images[platform]))
@@ -889,9 +890,9 @@ class Stage2(productmd.common.MetadataBase):
         return path
 
     def serialize(self, parser):
+        self.validate()
         if not self.mainimage and not self.instimage:
             return
-        self.validate()
         parser.add_section(self._section)
         if self.mainimage:
             parser.set(self._section, "mainimage", self.mainimage)
@@ -906,14 +907,14 @@ class Stage2(productmd.common.MetadataBase):
         self.validate()
 
     def _validate_mainimage(self):
+        self._assert_type("mainimage", [type(None)] + list(six.string_types))
         if self.mainimage:
-            self._assert_type("mainimage", list(six.string_types))
             if self.mainimage.startswith("/"):
                 raise ValueError("Only relative paths are allowed for images: %s" % self.mainimage)
 
     def _validate_instimage(self):
+        self._assert_type("instimage", [type(None)] + list(six.string_types))
         if self.instimage:
-            self._assert_type("instimage", list(six.string_types))
             if self.instimage.startswith("/"):
                 raise ValueError("Only relative paths are allowed for images: %s" % self.instimage)
 
